@@ -22,14 +22,14 @@ CHECKS = {
             "Trusts mv/ref/v2.py to build authentic packets and to recognise the (never observed) corruption that is still authentic.", "DESIGN.md section 2 C03"),
     "C04": ("exploration", "delivered-prefix runtime oracle on the real V3 protocol object under enumerated and random TCP segmentations; virtual-time promptness check through LAN.send",
             "All segmentations with <=2 (quick) / <=3 (thorough) cut points of ~90 generated streams of 1..4 packets incl. marker-bearing payloads and garbage prefixes, "
-            "random many-cut and byte-by-byte segmentations, timed delivery (gaps up to 45 s) with a reader whose reads time out and are re-issued, a packet straddling two exchanges, plus full-stack runs deciding promptness on virtual time.",
+            "random many-cut and byte-by-byte segmentations, timed delivery (gaps up to 45 s) with a reader whose reads time out and are re-issued, a packet straddling two exchanges, plus full-stack runs (return instant judged against the same exchange delivered unsegmented; packets that had arrived must be returned) deciding promptness on virtual time.",
             "Trusts mv/ref/v3.py framing and the in-memory transport's copy of asyncio's data_received semantics.", "DESIGN.md section 2 C04"),
     "C05": ("fault_enumeration", "differential runtime monitor vs independent V3 codec + exhaustive single-bit tamper enumeration (direct and through LAN.send)",
             "Payload lengths 0..300 in both directions (decode both through _process_packet and through data_received/read in several segmentations, incl. responses searched to contain the start marker), counters 0..4095 (thorough), random keys, wire round trips on an authenticated simulated session, "
             "session sequences of varying length through one protocol instance (direct and via write()), and every single-bit flip of a response for every padding residue with the genuine response accepted before and between (all replies altered, or only the first); session keys with leading/trailing zero bytes; marker-like packet counters in front of marker-like payloads.",
             "Trusts mv/ref/v3.py; marker/size bit flips at the LAN.send level may end in TimeoutError (framing never completes).", "DESIGN.md section 2 C05"),
     "C10": ("exploration", "differential runtime monitor: 0x40 bodies captured by the simulated device decoded with a vendor-layout reference decoder; run-wide injectivity map",
-            "Every value of every settable field, 62 setpoints x 6 modes, fan bytes 0..127, all 768 combinations of flags sharing a byte, pairwise array, seeded random states, with/without a capability profile queried first, with property setters pending, through the deprecated alias setters, against a device that reports its state with every reply, apply() overlapping a refresh() or another apply(); all through AirConditioner.apply() on the real stack.",
+            "Every value of every settable field, 62 setpoints x 6 modes, fan bytes 0..127, all 768 combinations of flags sharing a byte, pairwise array, seeded random states, with/without a capability profile queried first, with property setters pending, through the deprecated alias setters, against a device that reports its state with every reply, apply() overlapping a refresh() or another apply(), settings chosen by member name against the vendor codes; all through AirConditioner.apply() on the real stack.",
             "Trusts mv/ref/acstate.decode_0x40 (transliteration of the vendor Lua, line references kept) and the oracle choices listed in DESIGN.md C10 'S'.", "DESIGN.md section 2 C10"),
     "C11": ("exploration", "differential runtime monitor: attributes of a fresh AirConditioner after refresh() vs independent decode of the raw 0xC0 body the simulated device reported",
             "256 x 10 temperature/tenths per sensor per unit, 32 x 32 setpoint codes, all 256 values of each flag byte, fan 0..127, lengths 16..40 x both check styles, every value of the trailing check byte and of the frame checksum, random bodies; histories on one object (longer report first, same report around local edits, pushed report before a change).",
